@@ -220,38 +220,31 @@ class Traj:
         self.M = M
         self.T = float(data["T"])
         self.t0 = float(data["t0"])
-        self.interval_kinds = {}
+        self.kinds = {}
         for dd in R.controls:
-            self.interval_kinds[dd["name"]] = "interval"
+            self.kinds[dd["name"]] = "interval"
         for dd in list(R.params) + list(R.vars):
             gk = dd.get("grid", "")
-            if gk == "control":
-                self.interval_kinds[dd["name"]] = "interval"
-            elif gk == "control+":
-                self.interval_kinds[dd["name"]] = "node"
-            elif gk == "":
-                self.interval_kinds[dd["name"]] = "global"
-        for dd in list(R.states) + list(R.qstates) + list(R.algebraics):
-            self.interval_kinds[dd["name"]] = "node"
+            self.kinds[dd["name"]] = {"": "global", "control": "interval", "control+": "plus"}.get(gk, "other")
 
     def base_vals(self, k, node=None):
-        """Values of u/p/v applying on control interval k (node: the node index for 'control+' quantities)."""
+        """Values of u/p/v applying on control interval k ('control+' quantities: column `node`)."""
         node = k if node is None else node
         vals = {}
-        for name, kind in self.interval_kinds.items():
+        for name, kind in self.kinds.items():
             if kind == "global":
                 vals[name] = np.asarray(self.d["glob"][name], dtype=float).reshape(-1)
             elif kind == "interval":
                 vals[name] = np.asarray(self.d["sig"][name], dtype=float)[:, k]
-            elif name in self.d["sig"] and self.R is not None and name not in [s["name"] for s in self.R.states + self.R.qstates + self.R.algebraics]:
+            elif kind == "plus":
                 vals[name] = np.asarray(self.d["sig"][name], dtype=float)[:, node]
         return vals
 
     def node_env(self, k):
-        """Environment at control node k in 0..N."""
+        """Environment at control node k in 0..N (controls / per-interval quantities of the last interval at node N)."""
         if k < 0 or k > self.N:
             raise E.OutOfHorizon()
-        ki = min(k, self.N - 1)   # interval whose control applies at this node
+        ki = min(k, self.N - 1)
         vals = self.base_vals(ki, node=k)
         for dd in self.R.states + self.R.qstates + self.R.algebraics:
             if dd["name"] in self.d["sig"]:
@@ -261,3 +254,162 @@ class Traj:
 
     def state_vec(self, k):
         return np.concatenate([np.asarray(self.d["sig"][dd["name"]], dtype=float)[:, k] for dd in self.R.states]) if self.R.states else np.zeros(0)
+
+
+# ---------------------------------------------------------------------------------
+# point clouds: the environments at which signal expressions are evaluated on each grid
+# ---------------------------------------------------------------------------------
+
+def grid_envs(tr, data, grid, degree=None):
+    """List of Env objects, one per point of `grid`, built from sampled raw ingredients.
+
+    control:          nodes 0..N
+    integrator:       the N*M integrator step starts plus the final node (needs data['intg'], data['ti'])
+    integrator_roots: every collocation time (needs data['roots'], data['tr'], degree)
+    """
+    R = tr.R
+    N, M = tr.N, tr.M
+    if grid == "control":
+        return [tr.node_env(k) for k in range(N + 1)]
+    if grid == "integrator":
+        ti = np.asarray(data["ti"]).reshape(-1)
+        envs = []
+        for k in range(N):
+            DTc = tr.tk[k + 1] - tr.tk[k]
+            for l in range(M):
+                vals = tr.base_vals(k, node=k)
+                for dd in R.states:
+                    vals[dd["name"]] = np.asarray(data["intg"][dd["name"]])[:, k * M + l]
+                envs.append(E.Env(vals, t=ti[k * M + l], T=tr.T, t0=tr.t0, DT=DTc / M, DTc=DTc, ctx=None, k=None))
+        envs.append(tr.node_env(N))
+        return envs
+    if grid == "integrator_roots":
+        trr = np.asarray(data["tr"]).reshape(-1)
+        envs = []
+        for k in range(N):
+            DTc = tr.tk[k + 1] - tr.tk[k]
+            for l in range(M):
+                for j in range(degree):
+                    col = (k * M + l) * degree + j
+                    vals = tr.base_vals(k, node=k)
+                    for dd in R.states + R.algebraics:
+                        if dd["name"] in data["roots"]:
+                            vals[dd["name"]] = np.asarray(data["roots"][dd["name"]])[:, col]
+                    envs.append(E.Env(vals, t=trr[col], T=tr.T, t0=tr.t0, DT=DTc / M, DTc=DTc))
+        return envs
+    raise ValueError(grid)
+
+
+def ev_top(e, tr, integral=None):
+    """Evaluate a non-signal expression: placeholders are resolved on the stage trajectory `tr`.
+
+    tr may be a dict stage name -> Traj for multi-stage expressions (placeholder's third entry names the stage).
+    integral: callback (stage traj, integrand expr) -> number for ['int', e].
+    """
+    op = e[0]
+
+    def pick(node):
+        if isinstance(tr, dict):
+            return tr[node[2]] if len(node) > 2 and node[2] is not None else tr["main"]
+        return tr
+
+    if op == "c":
+        return e[1]
+    if op == "at_t0":
+        t = pick(e)
+        return E.ev(e[1], t.node_env(0))
+    if op == "at_tf":
+        t = pick(e)
+        return E.ev(e[1], t.node_env(t.N))
+    if op == "sum":
+        t = pick(e)
+        return sum(E.ev(e[1], t.node_env(k)) for k in range(t.N))
+    if op == "sump":
+        t = pick(e)
+        return sum(E.ev(e[1], t.node_env(k)) for k in range(t.N + 1))
+    if op == "intc":
+        t = pick(e)
+        return sum(E.ev(e[1], t.node_env(k)) * (t.tk[k + 1] - t.tk[k]) for k in range(t.N))
+    if op == "int":
+        t = pick(e)
+        return integral(t, e[1])
+    if op in ("T", "t0", "tf"):
+        t = tr["main"] if isinstance(tr, dict) else tr
+        return {"T": t.T, "t0": t.t0, "tf": t.t0 + t.T}[op]
+    if op == "sym":
+        t = tr["main"] if isinstance(tr, dict) else tr
+        if isinstance(tr, dict):
+            for tt in tr.values():
+                if e[1] in tt.d["glob"]:
+                    t = tt
+        return float(np.asarray(t.d["glob"][e[1]]).reshape(-1)[e[2]])
+    if op in E.UNARY:
+        a = ev_top(e[1], tr, integral)
+        return {"neg": lambda v: -v, "sq": lambda v: v * v, "sin": math.sin, "cos": math.cos, "tanh": math.tanh}[op](a)
+    if op in E.BINARY:
+        a = ev_top(e[1], tr, integral)
+        b = ev_top(e[2], tr, integral)
+        return a + b if op == "+" else (a - b if op == "-" else a * b)
+    raise ValueError("ev_top: %r" % (op,))
+
+
+def slacks(rel, lhs, rhs=None, lb=None, ub=None):
+    """(kind, value) pairs of the slack functions of one scalar relation."""
+    if rel == "<=":
+        return [("i", rhs - lhs)]
+    if rel == ">=":
+        return [("i", lhs - rhs)]
+    if rel == "==":
+        return [("e", lhs - rhs)]
+    if rel == "box":
+        return [("i", lhs - lb), ("i", ub - lhs)]
+    raise ValueError(rel)
+
+
+def shooting_integral(tr, scheme, integrand):
+    """ocp.integral under shooting: the scheme applied to the augmented system, restarted at every node state."""
+    R = tr.R
+    sp = dict(R.sp)
+    sp["states"] = list(R.states) + [{"name": "__I", "rows": 1, "cols": 1, "quad": True}]
+    key = "next" if R.discrete else "der"
+    sp[key] = [[n, ex] for n, ex in sp.get(key, []) if n in [d["name"] for d in R.states]] + [["__I", [integrand]]]
+    R2 = StageRef(sp)
+    total = 0.0
+    for k in range(tr.N):
+        _, q, _, _ = propagate(R2, scheme, tr.state_vec(k), tr.base_vals(k, node=k), tr.tk[k], tr.tk[k + 1], tr.M, T=tr.T, t0=tr.t0)
+        total += q[0]
+    return total
+
+
+def collocation_integral(tr, data, col, integrand):
+    """ocp.integral under DirectCollocation: sum over steps of h * w_j * integrand(collocation point j)."""
+    envs = grid_envs(tr, data, "integrator_roots", degree=col.d)
+    total = 0.0
+    idx = 0
+    for k in range(tr.N):
+        h = (tr.tk[k + 1] - tr.tk[k]) / tr.M
+        for l in range(tr.M):
+            for j in range(col.d):
+                total += h * col.w[j] * E.ev(integrand, envs[idx])
+                idx += 1
+    return total
+
+
+def override_params(data, sp, N):
+    """Parameter values are known from the spec: use them instead of sampled values, so that a wrong
+    per-interval selection inside rockit's sampling cannot hide behind itself."""
+    for d in sp.get("params", []):
+        if d.get("value") is None:
+            continue
+        g = d.get("grid", "")
+        V = np.array(d["value"], dtype=float)            # rows x (cols * ncol)
+        r, c = d["rows"], d["cols"]
+        if g == "":
+            data["glob"][d["name"]] = V.reshape(r, c).flatten(order="F")
+        elif g in ("control", "control+"):
+            ncol = V.shape[1] // c
+            cols = [V[:, j * c:(j + 1) * c].flatten(order="F") for j in range(ncol)]
+            if g == "control":
+                cols.append(cols[-1])       # at the final node the last interval's value applies
+            data["sig"][d["name"]] = np.array(cols).T
+    return data
